@@ -4,6 +4,7 @@
 // result of the same operation. Usage: tsan_stress <threads> <iters> <seed>   -> prints "ok <ops>" or "mismatch …"
 // (data races are reported by TSan on stderr and make the exit code 66)
 #include <thread>
+#include <bitset>
 #include <vector>
 #include <string>
 #include <sstream>
@@ -23,6 +24,7 @@
 #include "bitserializer/types/std/optional.h"
 #include "bitserializer/types/std/pair.h"
 #include "bitserializer/types/std/chrono.h"
+#include "bitserializer/types/std/bitset.h"
 
 using namespace BitSerializer;
 
@@ -59,9 +61,22 @@ struct Wide {
 	template <class TArchive> void Serialize(TArchive& archive) { archive << KeyValue("a", a) << KeyValue("b", b) << KeyValue("c", c); }
 };
 
+// a CONST source object shared by all threads (property: "sharing only constants ... const source objects")
+struct SharedSrc {
+	std::bitset<70> bits; std::vector<bool> flags; std::string text; std::vector<int> nums; std::optional<int> opt;
+	template <class TArchive> void Serialize(TArchive& archive) {
+		archive << KeyValue("bits", bits) << KeyValue("flags", flags) << KeyValue("text", text) << KeyValue("nums", nums) << KeyValue("opt", opt);
+	}
+};
+static const SharedSrc& sharedSrc() {
+	static const SharedSrc s = [] { SharedSrc v; v.bits = std::bitset<70>(0x5A5A5A5A5A5A5A5AULL); v.bits.set(69); v.flags = { true, false, true, true };
+		v.text = "shared const text"; v.nums = { 1, 2, 3, 70000 }; v.opt = 5; return v; }();
+	return s;
+}
+
 static std::string runOp(unsigned kind, unsigned k, const std::string& sharedMp, const std::string& sharedJson) {
 	try {
-		switch (kind % 16) {
+		switch (kind % 18) {
 		case 0: return SaveObject<MsgPack::MsgPackArchive>(makeOuter(k));
 		case 1: return SaveObject<Json::RapidJson::JsonArchive>(makeOuter(k));
 		case 2: return SaveObject<Xml::PugiXml::XmlArchive>(makeOuter(k));
@@ -94,6 +109,8 @@ static std::string runOp(unsigned kind, unsigned k, const std::string& sharedMp,
 				// numbers parsed from 16/32-bit strings (they are transcoded through a scratch buffer first)
 				Convert::ToString(Convert::To<int>(std::u16string(u"00000000000000000") + Convert::To<std::u16string>(std::to_string(k)))) +
 				Convert::ToString(Convert::To<double>(std::wstring(L"0.5e1") )) + Convert::ToString(Convert::To<int64_t>(Convert::To<std::u32string>(std::to_string(k * 77777LL)))); }
+		case 16: return SaveObject<MsgPack::MsgPackArchive>(sharedSrc()) + std::to_string(k % 2);
+		case 17: return (k % 2 ? SaveObject<Json::RapidJson::JsonArchive>(sharedSrc()) : SaveObject<Xml::PugiXml::XmlArchive>(sharedSrc()));
 		case 11: { std::vector<Row> r; LoadObject<Csv::CsvArchive>(r, std::string("x,y,z\r\n1,\"a,b\",1.5\r\n") + std::to_string(k) + ",k,2\r\n"); return std::to_string(r.size()) + r.back().y + std::to_string(r.back().x); }
 		}
 	} catch (const std::exception& e) { return std::string("EXC:") + e.what(); }
@@ -124,7 +141,7 @@ int main(int argc, char** argv) {
 	size_t ops = 0;
 	for (unsigned t = 0; t < threads; ++t)
 		for (size_t i = 0; i < golden[t].size(); ++i, ++ops)
-			if (golden[t][i] != actual[t][i]) { std::cout << "mismatch thread=" << t << " op=" << i << " kind=" << plan[t][i].first % 16 << "\n"; return 1; }
+			if (golden[t][i] != actual[t][i]) { std::cout << "mismatch thread=" << t << " op=" << i << " kind=" << plan[t][i].first % 18 << "\n"; return 1; }
 	std::cout << "ok " << ops << "\n";
 	return 0;
 }
